@@ -40,7 +40,7 @@ claim("C10", "Coq proof (host-failure tracking in the monitor semantics, for eve
       NOTE, "4/C10")
 
 claim("C08", "Coq proof (cache-coherence invariant of the decoder-reuse rule, any history; resumability of the real MSZIP port) + random and directed extraction histories vs a fresh decompressor on the C library",
-      "Proof: C08_mszip_decoder_resumable - on the ported mszipd_decompress a request for a then b bytes equals a request for a + b (output, status, stream state), for every input and state; and over an abstract folder (plaintext, optional damage point, frame granularity) and the reuse rule of cabd_extract (same folder, offset not behind the cursor, live decoder; permanent decoder errors; empty members skipped), every call after ANY history returns what a fresh decoder returns; intact folders always yield the exact slice. The rule is an abstraction of cabd_extract/chmd_extract, tied to the C by the history-vs-fresh oracle on generated cabinets, sets and CHMs (one third with a damaged folder), not by a line-by-line port.",
+      "Proof: C08_mszip_decoder_resumable - on the ported mszipd_decompress a request for a then b bytes equals a request for a + b (output, status, stream state), for every input and state; C08_mszip_history_independent - on the cabinet model (Model/Cab.v) every in-order list of members of an MSZIP folder extracted with one decompressor gets, call by call, what a fresh decompressor gives; and over an abstract folder (plaintext, optional damage point, frame granularity) and the reuse rule of cabd_extract (same folder, offset not behind the cursor, live decoder; permanent decoder errors; empty members skipped), every call after ANY history returns what a fresh decoder returns; intact folders always yield the exact slice. The rule is an abstraction of cabd_extract/chmd_extract, tied to the C by the history-vs-fresh oracle on generated cabinets, sets and CHMs (one third with a damaged folder), not by a line-by-line port.",
       NOTE, "4/C08")
 
 claim("C11", "Coq proof (bisimulation: run independent of the contents of fresh memory, for every host) on the SZDD/LZSS and KWAJ ports + differential runs of the C library under four allocator fill patterns (hostile inputs: five more, small values that pass for code lengths)",
